@@ -115,6 +115,7 @@ type Oblig struct {
 	Res     SolveResult
 	Inputs  map[string]*Term
 	presolved bool
+	Inconclusive bool
 	query     *Query
 }
 
@@ -145,7 +146,11 @@ type exec struct {
 	globals     map[*types.Var]*Obj
 	globalInit  map[*Obj]Value
 	globalFacts []*Term
+	mulLog      []mulRec
+	lemmaDepth  int
 }
+
+type mulRec struct{ x, c *Term }
 
 func (ex *exec) fail(pos token.Pos, format string, args ...interface{}) {
 	p := ""
@@ -257,6 +262,19 @@ func (ex *exec) scalarSort(t types.Type) *Sort {
 	return BVSort(w)
 }
 
+// arrSort gives the SMT array sort for arrays/slices with scalar element type elem.
+func (ex *exec) arrSort(elem types.Type) *Sort {
+	es := ex.scalarSort(elem)
+	if ex.mode == ModeInt && es == IntSort {
+		w, sg, _ := ex.intWidth(elem)
+		lo, hi := typeRange(w, sg)
+		return ArrSortR(IntSort, IntSort, lo, hi)
+	}
+	return ArrSort(ex.idxSort(), es)
+}
+
+const smallArray = 64
+
 func (ex *exec) idxSort() *Sort {
 	if ex.mode == ModeInt {
 		return IntSort
@@ -315,14 +333,14 @@ func (ex *exec) zeroValue(t types.Type) Value {
 	case *types.Slice:
 		return &Slice{Base: &Ptr{}, Off: ex.idxConst(0), Len: ex.idxConst(0), Cap: ex.idxConst(0), Nil: True, Elem: u.Elem()}
 	case *types.Array:
-		if es := ex.scalarSort(u.Elem()); es != nil {
+		if es := ex.scalarSort(u.Elem()); es != nil && !(ex.mode == ModeInt && u.Len() <= smallArray) {
 			var z *Term
 			if es == BoolSort {
 				z = False
 			} else {
 				z = ex.intConst(u.Elem(), big.NewInt(0))
 			}
-			return ConstArr(ArrSort(ex.idxSort(), es), z)
+			return ConstArr(ex.arrSort(u.Elem()), z)
 		}
 		a := &Array{E: make([]Value, u.Len())}
 		for i := range a.E {
@@ -388,8 +406,8 @@ func (ex *exec) freshValue(st *State, t types.Type, name string, depth int) Valu
 	case *types.Slice:
 		return ex.freshSlice(st, u.Elem(), name, depth)
 	case *types.Array:
-		if es := ex.scalarSort(u.Elem()); es != nil {
-			return Fresh(name, ArrSort(ex.idxSort(), es))
+		if es := ex.scalarSort(u.Elem()); es != nil && !(ex.mode == ModeInt && u.Len() <= smallArray) {
+			return Fresh(name, ex.arrSort(u.Elem()))
 		}
 		if u.Len() > 4096 {
 			ex.fail(token.NoPos, "array too long: %s", t)
@@ -428,7 +446,7 @@ func (ex *exec) freshSlice(st *State, elem types.Type, name string, depth int) *
 	es := ex.scalarSort(elem)
 	o := ex.newObj(types.NewSlice(elem), name+".arr", false)
 	if es != nil {
-		st.heap[o] = Fresh(name+".arr", ArrSort(ex.idxSort(), es))
+		st.heap[o] = Fresh(name+".arr", ex.arrSort(elem))
 	} else {
 		// slices of non-scalars: contents unknown; modelled lazily
 		st.heap[o] = &Opaque{"backing array of " + name}
@@ -1184,7 +1202,13 @@ func (ex *exec) havocValue(st *State, old Value, t types.Type, name string) Valu
 		return ns
 	case *Array:
 		na := &Array{E: make([]Value, len(o.E))}
-		et := t.Underlying().(*types.Array).Elem()
+		var et types.Type
+		switch u := t.Underlying().(type) {
+		case *types.Array:
+			et = u.Elem()
+		case *types.Slice:
+			et = u.Elem()
+		}
 		for i := range o.E {
 			na.E[i] = ex.havocValue(st, o.E[i], et, fmt.Sprintf("%s[%d]", name, i))
 		}
